@@ -20,6 +20,13 @@ use quantities::prelude::*;
 """
 
 
+def pick(rnd, items, variant):
+    """Random choice, or the variant-th item when the caller enumerates."""
+    if variant is None:
+        return rnd.choice(items)
+    return items[variant % len(items)]
+
+
 def base(rnd, kind, name="Victim", derived=None, taken=None):
     return defgen.random_def(rnd, name, kind, derived, taken if taken is not None else set())
 
@@ -75,8 +82,8 @@ def args_of(u, with_scale=True):
 
 
 # Each operator: rnd -> (description, [well-formed context definitions as text], victim text)
-def op_no_unit(rnd):
-    d = base(rnd, rnd.choice(["ref", "noref", "single"]))
+def op_no_unit(rnd, variant=None):
+    d = base(rnd, pick(rnd, ["ref", "noref", "single"], variant))
     for i, u in enumerate(d["units"]):
         if not u["ref"]:
             d = raw_attr(d, i, None)
@@ -90,11 +97,11 @@ def op_second_ref_unit(rnd):
     return "two reference units", [], emit(d)
 
 
-def op_ref_unit_with_scale(rnd):
+def op_ref_unit_with_scale(rnd, variant=None):
     d = base(rnd, "ref")
     i = next(i for i, u in enumerate(d["units"]) if u["ref"])
     u = d["units"][i]
-    a = [u["id"], defgen.rust_str(u["symbol"])] + ([u["prefix"]] if u["prefix"] else []) + [rnd.choice(["1", "1.0", "1000", "0.5"])]
+    a = [u["id"], defgen.rust_str(u["symbol"])] + ([u["prefix"]] if u["prefix"] else []) + [pick(rnd, ["1", "1.0", "1000", "0.5"], variant)]
     return "scale on the reference unit", [], emit(raw_attr(d, i, "#[ref_unit(%s)]" % ", ".join(a)))
 
 
@@ -104,29 +111,29 @@ def op_missing_scale(rnd):
     return "unit without scale next to a reference unit", [], emit(raw_attr(d, i, "#[unit(%s)]" % ", ".join(args_of(d["units"][i], with_scale=False))))
 
 
-def op_scale_without_ref(rnd):
+def op_scale_without_ref(rnd, variant=None):
     d = base(rnd, rnd.choice(["noref", "single"]))
     i = rnd.randrange(len(d["units"]))
     u = d["units"][i]
-    a = [u["id"], defgen.rust_str(u["symbol"]), rnd.choice(["1000", "0.001", "2.5e3", "1."])]
+    a = [u["id"], defgen.rust_str(u["symbol"]), pick(rnd, ["1000", "0.001", "2.5e3", "1."], variant)]
     return "scale without any reference unit", [], emit(raw_attr(d, i, "#[unit(%s)]" % ", ".join(a)))
 
 
-def op_prefix_without_ref(rnd):
+def op_prefix_without_ref(rnd, variant=None):
     d = base(rnd, rnd.choice(["noref", "single"]))
     i = rnd.randrange(len(d["units"]))
     u = d["units"][i]
-    a = [u["id"], defgen.rust_str(u["symbol"]), rnd.choice(defgen.PREFIXES)[0]]
+    a = [u["id"], defgen.rust_str(u["symbol"]), pick(rnd, ["NONE", rnd.choice(defgen.PREFIXES)[0], "KILO"], variant)]
     return "SI prefix without any reference unit", [], emit(raw_attr(d, i, "#[unit(%s)]" % ", ".join(a)))
 
 
-def op_args(rnd):
+def op_args(rnd, variant=None):
     d = base(rnd, "ref")
     i = full_unit(rnd, d)
     a = args_of(d["units"][i])  # id, symbol, prefix, scale, doc
-    which = rnd.choice(["drop-symbol", "drop-ident", "dup-symbol", "swap-ident-symbol", "symbol-as-ident",
-                        "ident-as-string", "sixth-arg", "scale-before-prefix", "empty", "no-parens", "scale-as-string",
-                        "prefix-as-string-before-scale", "doc-as-ident"])
+    which = pick(rnd, ["drop-symbol", "drop-ident", "dup-symbol", "swap-ident-symbol", "symbol-as-ident",
+                       "ident-as-string", "sixth-arg", "scale-before-prefix", "empty", "no-parens", "scale-as-string",
+                       "prefix-as-string-before-scale", "doc-as-ident"], variant)
     if which == "drop-symbol":
         b = [a[0]] + a[2:]
     elif which == "drop-ident":
@@ -156,11 +163,11 @@ def op_args(rnd):
     return "attribute arguments: %s" % which, [], emit(raw_attr(d, i, "#[unit(%s)]" % ", ".join(b)))
 
 
-def op_ref_args(rnd):
+def op_ref_args(rnd, variant=None):
     d = base(rnd, "ref")
     i = next(i for i, u in enumerate(d["units"]) if u["ref"])
     u = d["units"][i]
-    which = rnd.choice(["drop-symbol", "five-args", "symbol-as-ident", "empty"])
+    which = pick(rnd, ["drop-symbol", "five-args", "symbol-as-ident", "empty"], variant)
     if which == "drop-symbol":
         t = "#[ref_unit(%s)]" % u["id"]
     elif which == "five-args":
@@ -172,41 +179,41 @@ def op_ref_args(rnd):
     return "reference unit arguments: %s" % which, [], emit(raw_attr(d, i, t))
 
 
-def op_fields(rnd):
+def op_fields(rnd, variant=None):
     d = base(rnd, rnd.choice(["ref", "noref", "single"]))
-    s = rnd.choice(["pub struct %s { amount: f64 }", "pub struct %s(f64);", "pub struct %s { a: u8, b: u8 }", "pub struct %s(u8, u8);"])
+    s = pick(rnd, ["pub struct %s { amount: f64 }", "pub struct %s(f64);", "pub struct %s { a: u8, b: u8 }", "pub struct %s(u8, u8);"], variant)
     return "struct with fields", [], emit(d, struct_text=s % d["name"])
 
 
-def op_generics(rnd):
+def op_generics(rnd, variant=None):
     d = base(rnd, rnd.choice(["ref", "noref", "single"]))
-    s = rnd.choice(["pub struct %s<T> {}", "pub struct %s<'a> {}", "pub struct %s<const N: usize> {}", "pub struct %s<T: Copy, U> {}"])
+    s = pick(rnd, ["pub struct %s<T> {}", "pub struct %s<'a> {}", "pub struct %s<const N: usize> {}", "pub struct %s<T: Copy, U> {}", "pub struct %s<'a, const N: usize> {}"], variant)
     return "struct with generic parameters", [], emit(d, struct_text=s % d["name"])
 
 
-def op_not_struct(rnd):
+def op_not_struct(rnd, variant=None):
     d = base(rnd, rnd.choice(["ref", "noref", "single"]))
-    s = rnd.choice(["pub enum %s {}", "pub enum %s { A, B }", "pub fn %s() {}", "pub union %s { a: u8 }", "pub trait %s {}", "pub type %s = f64;", "pub mod %s {}"])
+    s = pick(rnd, ["pub enum %s {}", "pub enum %s { A, B }", "pub fn %s() {}", "pub union %s { a: u8 }", "pub trait %s {}", "pub type %s = f64;", "pub mod %s {}"], variant)
     return "item is not a struct", [], emit(d, struct_text=s % d["name"])
 
 
-def op_bad_derivation(rnd):
+def op_bad_derivation(rnd, variant=None):
     taken = set()
     a = base(rnd, "ref", "OpA", None, taken)
     b = base(rnd, "ref", "OpB", None, taken)
     c = base(rnd, "ref", "OpC", None, taken)
     d = base(rnd, "ref", "Victim", None, taken)
-    expr = rnd.choice(["OpA + OpB", "OpA - OpB", "OpA * OpB * OpC", "OpA", "2 * OpA", "OpA * 2", "self::OpA * OpB",
+    expr = pick(rnd, ["OpA + OpB", "OpA - OpB", "OpA * OpB * OpC", "OpA", "2 * OpA", "OpA * 2", "self::OpA * OpB",
                        "OpA * self::OpB", "fn x", "OpA % OpB", "(OpA * OpB)", "OpA, OpB", "\"OpA * OpB\"", "-OpA", "OpA * (OpB / OpC)",
-                       "OpA / OpB / OpC"])
+                       "OpA / OpB / OpC", "crate::OpA / OpB", "OpA * no::such::module::OpB", "OpA::<u8> * OpB"], variant)
     ctx = [defgen.emit_def(a), defgen.emit_def(b), defgen.emit_def(c)]
     return "derivation argument %r" % expr, ctx, emit(d, quantity_attr="#[quantity(%s)]" % expr)
 
 
-def op_derived_no_ref(rnd):
+def op_derived_no_ref(rnd, variant=None):
     taken = set()
-    which = rnd.choice(["lhs", "rhs", "result"])
-    op = rnd.choice(["*", "/"])
+    which = pick(rnd, ["lhs", "rhs", "result"], variant)
+    op = pick(rnd, ["*", "/"], None if variant is None else variant // 3)
     a = base(rnd, "noref" if which == "lhs" else "ref", "OpA", None, taken)
     b = base(rnd, "noref" if which == "rhs" else "ref", "OpB", None, taken)
     if which in ("lhs", "rhs") and rnd.random() < 0.3:
@@ -223,9 +230,32 @@ OPERATORS = [op_no_unit, op_second_ref_unit, op_ref_unit_with_scale, op_missing_
              op_prefix_without_ref, op_args, op_args, op_ref_args, op_fields, op_generics, op_not_struct,
              op_bad_derivation, op_bad_derivation, op_derived_no_ref, op_derived_no_ref]
 
+# number of enumerable sub-variants per operator (every one occurs once per batch)
+VARIANTS = {"op_no_unit": 3, "op_second_ref_unit": 1, "op_ref_unit_with_scale": 4, "op_missing_scale": 1,
+            "op_scale_without_ref": 4, "op_prefix_without_ref": 3, "op_args": 13, "op_ref_args": 4, "op_fields": 4,
+            "op_generics": 5, "op_not_struct": 7, "op_bad_derivation": 19, "op_derived_no_ref": 6}
 
-def make_program(rnd, opi):
-    desc, ctx, victim = OPERATORS[opi](rnd)
+
+def enumerated():
+    """[(operator index, variant)] covering every sub-variant once."""
+    out = []
+    seen = set()
+    for i, op in enumerate(OPERATORS):
+        if op.__name__ in seen:
+            continue
+        seen.add(op.__name__)
+        for v in range(VARIANTS[op.__name__]):
+            out.append((i, v))
+    return out
+
+
+def make_program(rnd, opi, variant=None):
+    import inspect
+    op = OPERATORS[opi]
+    if variant is not None and "variant" in inspect.signature(op).parameters:
+        desc, ctx, victim = op(rnd, variant)
+    else:
+        desc, ctx, victim = op(rnd)
     lines = PRELUDE.splitlines()
     ctx_ranges = []
     for c in ctx:
@@ -293,8 +323,9 @@ def run(tier):
         bi = state["batch"]
         state["batch"] += 1
         # every operator at least twice per batch, the rest as drawn
-        ops = (list(range(len(OPERATORS))) * 2 + [rnd.randrange(len(OPERATORS)) for _ in ops])[:per_batch]
-        progs = [make_program(rnd, o) for o in ops]
+        plan = enumerated() + [(rnd.randrange(len(OPERATORS)), None) for _ in ops]
+        plan = plan[:max(per_batch, len(enumerated()))]
+        progs = [make_program(rnd, o, v) for (o, v) in plan]
         feats = ["std"] + (["fpdec"] if bi % 2 else [])
         res, stderr = compile_programs("c12-batch-%d" % (bi % 4), progs, feats)
         if res is None:
@@ -345,7 +376,7 @@ def run(tier):
     coverage = {
         "evaluations": total,
         "distinct_nontrivial": total,
-        "rule": "Hypothesis draws batches of (defect operator, random well-formed definition from the C11 generator); exactly one defect is applied under a precondition that makes the result malformed in the statement's sense: no unit, second reference unit, scale on the reference unit, unit without scale next to a reference unit, scale / prefix without reference unit, 13 kinds of wrong argument lists, reference-unit argument defects, fields, generic parameters, non-struct items, 16 non-derivation expressions, derived definitions whose lhs / rhs / result lacks a reference unit (incl. single-unit operands); every operator occurs at least twice per batch; plus the repository's 13 tests/ui programs. Each program is compiled alone; it must fail, with an error whose primary span (walked out of macro expansions) lies inside the offending definition and none inside a well-formed one. Every program is non-trivial; programs are distinct by construction (random identifiers)",
+        "rule": "Hypothesis draws batches of (defect operator, random well-formed definition from the C11 generator); exactly one defect is applied under a precondition that makes the result malformed in the statement's sense: no unit, second reference unit, scale on the reference unit, unit without scale next to a reference unit, scale / prefix without reference unit, 13 kinds of wrong argument lists, reference-unit argument defects, fields, generic parameters, non-struct items, 16 non-derivation expressions, derived definitions whose lhs / rhs / result lacks a reference unit (incl. single-unit operands); every operator and every one of its enumerable sub-variants (74 in total) occurs at least once per batch; plus the repository's 13 tests/ui programs. Each program is compiled alone; it must fail, with an error whose primary span (walked out of macro expansions) lies inside the offending definition and none inside a well-formed one. Every program is non-trivial; programs are distinct by construction (random identifiers)",
         "samples": samples[:8],
         "programs": total,
         "per_operator": stats["per_operator"],
